@@ -1589,7 +1589,9 @@ Qed.
 Section RepairProofs.
   Variable ref : nl.
   Let inref (a : string) : bool := mem a ref.
-  Let always (_ : string) (_ : nl) : bool := true.
+  Variables feasv hfeasv : string -> nl -> bool.
+  Hypothesis feasv_true : forall a l, feasv a l = true.
+  Hypothesis hfeasv_true : forall a l, hfeasv a l = true.
 
   Lemma keep_alias_false : forall a cur, mem "OP1" cur = false -> mem "OP2" cur = false -> keep_alias a cur = false.
   Proof. intros a cur H1 H2. unfold keep_alias. rewrite H1, H2. rewrite !andb_false_r. reflexivity. Qed.
@@ -1625,12 +1627,12 @@ Section RepairProofs.
 
   Lemma rebuild_always : forall missing fuel n seen w logged,
     List.length missing < fuel -> NoDup (w_names w ++ missing) ->
-    exists w', rebuild always fuel n missing seen w logged = RDone w' logged /\
+    exists w', rebuild feasv fuel n missing seen w logged = RDone w' logged /\
                w_names w' = (w_names w ++ missing)%list.
   Proof.
     induction missing as [|a r IH]; intros fuel n seen w logged Hf Hn.
     - destruct fuel; [cbn in Hf; lia|]. cbn. rewrite app_nil_r. eexists. split; reflexivity.
-    - destruct fuel; [cbn in Hf; lia|]. cbn [rebuild]. unfold always at 1.
+    - destruct fuel; [cbn in Hf; lia|]. cbn [rebuild]. rewrite feasv_true.
       destruct (cr_spec a w) as [w1 [E1 N1]].
       { apply NoDup_remove_2 in Hn. intros Hc. apply Hn. apply in_or_app. auto. }
       rewrite E1. destruct (IH fuel n seen w1 logged) as [w' [E' N']].
@@ -1642,7 +1644,7 @@ Section RepairProofs.
   Lemma add_h_spec : forall ssb todo w, NoDup (w_names w) ->
     exists w', fold_left (fun acc r => acc >>= fun w' =>
         if is_hyd r && negb (has r w') && negb (ssb && String.eqb r "HG")
-        then (if always r (w_names w') then cr r w' else Some w') else Some w') todo (Some w) = Some w' /\
+        then (if hfeasv r (w_names w') then cr r w' else Some w') else Some w') todo (Some w) = Some w' /\
       NoDup (w_names w') /\
       forall x, In x (w_names w') <-> In x (w_names w) \/
                                       (In x todo /\ is_hyd x = true /\ ~ (ssb = true /\ x = "HG"%string)).
@@ -1651,7 +1653,7 @@ Section RepairProofs.
     - exists w. cbn. split; auto. split; auto. intros x. tauto.
     - cbn [fold_left bind].
       destruct (is_hyd r && negb (has r w) && negb (ssb && String.eqb r "HG")) eqn:Ec.
-      + unfold always at 1.
+      + rewrite hfeasv_true.
         apply andb_true_iff in Ec. destruct Ec as [Ec E3]. apply andb_true_iff in Ec. destruct Ec as [E1 E2].
         apply negb_true_iff in E2. apply negb_true_iff in E3.
         destruct (cr_spec r w) as [w1 [C1 N1]]; [apply has_false; auto|]. rewrite C1.
@@ -1684,9 +1686,9 @@ Section RepairProofs.
   Theorem repair_add_complete : forall ns ssb,
     NoDup ns -> NoDup ref -> mem "OP1" ns = false -> mem "OP2" ns = false ->
     (forall x, In x ns -> is_pseudo x = false) ->
-    exists w logged, repair_heavy ref always true ns = RDone w logged /\
+    exists w logged, repair_heavy ref feasv true ns = RDone w logged /\
       logged = filter (fun a => negb (mem a ref)) ns /\
-      exists w', add_hydrogens ref always ssb w = Some w' /\ NoDup (w_names w') /\
+      exists w', add_hydrogens ref hfeasv ssb w = Some w' /\ NoDup (w_names w') /\
         forall x, In x (w_names w') <->
                   In x ref /\ is_pseudo x = false /\ ~ (ssb = true /\ x = "HG"%string /\ ~ In x ns).
   Proof.
@@ -1706,7 +1708,7 @@ Section RepairProofs.
     destruct (rebuild_always miss (repair_fuel (List.length miss)) (List.length miss) [] w1
                 (filter (fun a => negb (inref a)) ns)) as [w2 [E2 N2]]; auto.
     { unfold repair_fuel. lia. }
-    fold miss. unfold always in *. rewrite E2. exists w2. eexists. split; [reflexivity|]. split; [reflexivity|].
+    fold miss. rewrite E2. exists w2. eexists. split; [reflexivity|]. split; [reflexivity|].
     unfold add_hydrogens.
     destruct (add_h_spec ssb ref w2) as [w3 [E3 [Nd3 S3]]]; [rewrite N2; auto|].
     exists w3. split; [exact E3|]. split; auto.
@@ -1731,4 +1733,389 @@ Lemma rtemplates_meaning : forall l t, rtemplates_ok l = true -> In t l ->
 Proof.
   intros l t H Ht. unfold rtemplates_ok in H. rewrite forallb_forall in H. specialize (H t Ht).
   apply andb_true_iff in H. exact H.
+Qed.
+
+(* ======================================================================
+   The pipeline for one residue, end to end at name level
+   ====================================================================== *)
+
+Definition seteq (a b : nl) : Prop := NoDup a /\ NoDup b /\ forall x, In x a <-> In x b.
+
+Lemma seteq_mem : forall a b x, seteq a b -> mem x a = mem x b.
+Proof.
+  intros a b x [_ [_ H]]. destruct (mem x b) eqn:E.
+  - apply mem_In. apply H. apply mem_In. auto.
+  - apply mem_false_notin. apply mem_false_notin in E. intros Hc. apply E. apply H. auto.
+Qed.
+
+Lemma seteq_remove_first : forall a b x, seteq a b -> seteq (remove_first x a) (remove_first x b).
+Proof.
+  intros a b x [Ha [Hb H]]. split; [apply NoDup_remove_first; auto|]. split; [apply NoDup_remove_first; auto|].
+  intros y. rewrite !In_remove_first by auto. rewrite H. tauto.
+Qed.
+
+Lemma seteq_cleanup : forall cl a b, seteq a b -> seteq (cleanup_names cl a) (cleanup_names cl b).
+Proof.
+  intros [c|] a b H; cbn [cleanup_names]; auto.
+  rewrite (seteq_mem a b (c_h1 c) H), (seteq_mem a b (c_h2 c) H).
+  destruct (mem (c_h1 c) b && mem (c_h2 c) b); auto. apply seteq_remove_first; auto.
+Qed.
+
+Lemma seteq_his : forall his a b, seteq a b -> seteq (his_names his a) (his_names his b).
+Proof.
+  intros [[|]|] a b H; cbn [his_names]; auto.
+  - rewrite (seteq_mem a b "HE2"%string H). destruct (mem "HE2" b); auto. apply seteq_remove_first; auto.
+  - rewrite (seteq_mem a b "HD1"%string H). destruct (mem "HD1" b); auto. apply seteq_remove_first; auto.
+Qed.
+
+Lemma cleanup_sub : forall cl l x, NoDup l -> In x (cleanup_names cl l) -> In x l.
+Proof.
+  intros [c|] l x Hn; cbn [cleanup_names]; auto.
+  destruct (mem (c_h1 c) l && mem (c_h2 c) l); auto. rewrite In_remove_first by auto. tauto.
+Qed.
+
+Lemma his_sub : forall his l x, NoDup l -> In x (his_names his l) -> In x l.
+Proof.
+  intros [[|]|] l x Hn; cbn [his_names]; auto.
+  - destruct (mem "HE2" l); auto. rewrite In_remove_first by auto. tauto.
+  - destruct (mem "HD1" l); auto. rewrite In_remove_first by auto. tauto.
+Qed.
+
+Lemma NoDup_nodupb : forall l, NoDup l -> nodupb l = true.
+Proof.
+  induction l as [|x l IH]; cbn; intros H; auto. inversion H; subst.
+  rewrite IH by auto. rewrite andb_true_r. apply negb_true_iff. apply mem_false_notin. auto.
+Qed.
+
+Lemma hyd_not_pseudo : forall x, is_hyd x = true -> is_pseudo x = false.
+Proof.
+  intros x Hh. unfold is_pseudo.
+  destruct (String.eqb x "N+1") eqn:Ea; [apply String.eqb_eq in Ea; subst; cbn in Hh; discriminate|].
+  destruct (String.eqb x "C-1") eqn:Eb; [apply String.eqb_eq in Eb; subst; cbn in Hh; discriminate|]. reflexivity.
+Qed.
+
+Lemma alc_expected_set : forall h l x, NoDup l -> (In x (alc_expected h l) <-> (In x l /\ x <> h) \/ x = h).
+Proof.
+  intros h l x Hn. unfold alc_expected. rewrite in_app_iff, In_remove_first by auto. cbn. split.
+  - intros [H|[H|[]]]; auto.
+  - intros [H|H]; auto.
+Qed.
+
+Lemma alc_expected_nodup : forall h l, NoDup l -> NoDup (alc_expected h l).
+Proof.
+  intros h l Hn. unfold alc_expected. apply NoDup_app_last; [apply NoDup_remove_first; auto|].
+  rewrite In_remove_first by auto. tauto.
+Qed.
+
+Lemma wat_expected_set : forall l x, In x (wat_expected l) <-> In x l \/ x = "H1"%string \/ x = "H2"%string.
+Proof.
+  intros l x. unfold wat_expected. rewrite !in_app_iff. split.
+  - intros [H|[H|H]]; auto.
+    + destruct (mem "H1" l); cbn in H; [tauto|]. destruct H as [<-|[]]; auto.
+    + destruct (mem "H2" l); cbn in H; [tauto|]. destruct H as [<-|[]]; auto.
+  - intros [H|[->| ->]]; auto.
+    + destruct (mem "H1" l) eqn:E; [left; apply mem_In; auto|right; left; cbn; auto].
+    + destruct (mem "H2" l) eqn:E; [left; apply mem_In; auto|right; right; cbn; auto].
+Qed.
+
+Lemma wat_expected_nodup : forall l, NoDup l -> NoDup (wat_expected l).
+Proof.
+  intros l Hn. unfold wat_expected.
+  destruct (mem "H1" l) eqn:E1; destruct (mem "H2" l) eqn:E2; cbn [app]; rewrite ?app_nil_r; auto.
+  - apply NoDup_app_last; auto. apply mem_false_notin; auto.
+  - apply NoDup_app_last; auto. apply mem_false_notin; auto.
+  - replace (l ++ ["H1"%string; "H2"%string])%list with ((l ++ ["H1"%string]) ++ ["H2"%string])%list
+      by (rewrite <- app_assoc; reflexivity).
+    apply NoDup_app_last.
+    + apply NoDup_app_last; auto. apply mem_false_notin; auto.
+    + intros H. apply in_app_or in H. destruct H as [H|[H|[]]]; [|discriminate].
+      apply mem_false_notin in E2. auto.
+Qed.
+
+(* expected_of respects set equality, for the kinds covered parametrically *)
+Lemma expected_of_seteq : forall k a b, seteq a b ->
+  match k with PCarb _ _ _ => True | _ => seteq (expected_of k a) (expected_of k b) end.
+Proof.
+  intros k a b H. pose proof H as [Ha [Hb Hs]]. destruct k as [|mv|h| |c o lf]; cbn [expected_of]; auto.
+  - split; [apply alc_expected_nodup; auto|]. split; [apply alc_expected_nodup; auto|].
+    intros x. rewrite !alc_expected_set by auto. rewrite Hs. tauto.
+  - split; [apply wat_expected_nodup; auto|]. split; [apply wat_expected_nodup; auto|].
+    intros x. rewrite !wat_expected_set. rewrite Hs. tauto.
+Qed.
+
+Lemma filter_all : forall (f : string -> bool) l, (forall x, In x l -> f x = true) ->
+  filter f l = l /\ filter (fun x => negb (f x)) l = [].
+Proof.
+  induction l as [|a l IH]; cbn; intros H; auto.
+  rewrite (H a) by auto. cbn. destruct IH as [I1 I2]; [intros; apply H; auto|]. rewrite I1, I2. auto.
+Qed.
+
+(* ---- stage: the optimisation protocol ------------------------------------------ *)
+
+Lemma proto_ok_stage : forall (L C : Type) (step : pst -> L -> outcome) (complete : pst -> C -> outcome) E st ls c,
+  proto_ok L C step complete E st ->
+  match st with
+  | Next s0 _ => match after (run L step s0 ls) (fun s => complete s c) with
+                 | POk l' => final_ok E l' | PDisabled => True | PErr => False end
+  | Disabled => True
+  | Error => False
+  end.
+Proof.
+  intros L C step complete E st ls c H. destruct st as [s0 o| |]; cbn in *; auto.
+  specialize (H ls). unfold after. destruct (run L step s0 ls) as [s o'| |]; auto.
+  specialize (H c). destruct (complete s c); auto.
+Qed.
+
+Lemma proto_stage_good : forall k ls l R,
+  NoDup l -> (forall x, In x l <-> In x R) -> (forall x, In x l -> placeholder x = false) ->
+  wf_kind k R = true ->
+  match proto_stage k ls l with
+  | POk l' => final_ok (expected_of k l) l'
+  | PDisabled => True
+  | PErr => False
+  end.
+Proof.
+  intros k ls l R Hn Hs Hp Hw.
+  assert (Hnb : nodupb l = true) by (apply NoDup_nodupb; auto).
+  assert (Hpb : forallb (fun x => negb (placeholder x)) l = true).
+  { apply forallb_forall. intros x Hx. rewrite Hp; auto. }
+  destruct k as [|mv|h| |c o lf]; cbn [proto_stage wf_kind expected_of] in *.
+  - split; auto. split; [tauto|auto].
+  - destruct ls as [|xs|xs|xs|xs bb]; auto. apply andb_true_iff in Hw. destruct Hw as [W1 W2].
+    assert (Hwf : wf_flip l mv = true).
+    { unfold wf_flip. rewrite Hnb, W1, Hpb. cbn. rewrite andb_true_r. apply forallb_forall. intros m Hm.
+      rewrite forallb_forall in W2. apply mem_In. apply Hs. apply mem_In. auto. }
+    pose proof (proto_ok_stage _ _ _ _ _ _ xs tt (flip_names_param l mv Hwf)) as H.
+    destruct (flip_start l mv); auto.
+  - destruct ls as [|xs|xs|xs|xs bb]; auto.
+    assert (Hwf : wf_alc h l = true) by (unfold wf_alc; rewrite Hnb, Hpb, Hw; reflexivity).
+    pose proof (proto_ok_stage _ _ _ _ _ _ xs tt (alc_names_param h l Hwf)) as H.
+    destruct (alc_start h l); auto.
+  - destruct ls as [|xs|xs|xs|xs bb]; auto.
+    assert (Hwf : wf_wat l = true).
+    { unfold wf_wat. rewrite Hnb, Hpb. cbn [andb].
+      assert (E1 : mem "H1" l = mem "H1" R).
+      { destruct (mem "H1" R) eqn:E; [apply mem_In; apply Hs; apply mem_In; auto|].
+        apply mem_false_notin. apply mem_false_notin in E. intros Hc. apply E. apply Hs. auto. }
+      assert (E2 : mem "H2" l = mem "H2" R).
+      { destruct (mem "H2" R) eqn:E; [apply mem_In; apply Hs; apply mem_In; auto|].
+        apply mem_false_notin. apply mem_false_notin in E. intros Hc. apply E. apply Hs. auto. }
+      rewrite E1, E2. exact Hw. }
+    pose proof (proto_ok_stage _ _ _ _ _ _ xs tt (wat_names_param l Hwf)) as H.
+    unfold wat_start in *. exact H.
+  - discriminate.
+Qed.
+
+(* ---- stage: repair_heavy + add_hydrogens ----------------------------------------- *)
+
+Section PipelineProofs.
+  Variable ref : nl.
+  Variables feas hfeas : string -> nl -> bool.
+  Variable entry : string -> bool.
+  Hypothesis feas_true : forall a l, feas a l = true.
+  Hypothesis hfeas_true : forall a l, hfeas a l = true.
+
+  Lemma wf_input_parts : forall l0 am, wf_input ref l0 am = true ->
+    NoDup l0 /\ NoDup ref /\ mem "OP1" l0 = false /\ mem "OP2" l0 = false /\
+    (forall x, In x l0 -> is_pseudo x = false) /\ (forall x, In x ref -> placeholder x = false) /\
+    (am = true \/ ((forall x, In x l0 -> In x ref) /\ missing_heavy ref l0 = [])).
+  Proof.
+    intros l0 am H. unfold wf_input in H.
+    apply andb_true_iff in H. destruct H as [H H7]. apply andb_true_iff in H. destruct H as [H H6].
+    apply andb_true_iff in H. destruct H as [H H5]. apply andb_true_iff in H. destruct H as [H H4].
+    apply andb_true_iff in H. destruct H as [H H3]. apply andb_true_iff in H. destruct H as [H1 H2].
+    split; [apply nodupb_NoDup; auto|]. split; [apply nodupb_NoDup; auto|].
+    split; [apply negb_true_iff; auto|]. split; [apply negb_true_iff; auto|]. split; [|split].
+    - intros x Hx. rewrite forallb_forall in H5. specialize (H5 x Hx). apply negb_true_iff; auto.
+    - intros x Hx. rewrite forallb_forall in H6. specialize (H6 x Hx). apply negb_true_iff; auto.
+    - destruct am; [left; auto|right]. cbn in H7. apply andb_true_iff in H7. destruct H7 as [Ha Hb]. split.
+      + intros x Hx. rewrite forallb_forall in Ha. apply mem_In. auto.
+      + destruct (missing_heavy ref l0); auto. discriminate.
+  Qed.
+
+  Lemma ref_atoms_In : forall ssb l0 x, In x (ref_atoms ref ssb l0) <->
+    In x ref /\ is_pseudo x = false /\ ~ (ssb = true /\ x = "HG"%string /\ ~ In x l0).
+  Proof.
+    intros ssb l0 x. unfold ref_atoms. rewrite filter_In, andb_true_iff, !negb_true_iff. split.
+    - intros [Hx [Hp Hc]]. split; auto. split; auto. intros [-> [-> Hn]].
+      apply mem_false_notin in Hn. rewrite Hn in Hc. cbn in Hc. discriminate.
+    - intros [Hx [Hp Hc]]. split; auto. split; auto.
+      destruct ssb; cbn; auto. destruct (String.eqb x "HG") eqn:E; cbn; auto.
+      apply String.eqb_eq in E. subst. destruct (mem "HG" l0) eqn:Em; cbn; auto.
+      exfalso. apply Hc. split; auto. split; auto. apply mem_false_notin. auto.
+  Qed.
+
+  Lemma stage12 : forall l0 am ssb, wf_input ref l0 am = true ->
+    exists w1 lg w3, repair_heavy ref feas am l0 = RDone w1 lg /\
+      add_hydrogens ref hfeas ssb w1 = Some w3 /\ NoDup (w_names w3) /\
+      (forall x, In x (w_names w3) <-> In x (ref_atoms ref ssb l0)) /\
+      lg = (if am then filter (fun a => negb (mem a ref)) l0 else []).
+  Proof.
+    intros l0 am ssb Hw. destruct (wf_input_parts l0 am Hw) as [Hn [Hr [H1 [H2 [Hps [Hph Hcase]]]]]].
+    destruct am.
+    - destruct (repair_add_complete ref feas hfeas feas_true hfeas_true l0 ssb Hn Hr H1 H2 Hps)
+        as [w1 [lg [E1 [Elg [w3 [E3 [Nd3 S3]]]]]]].
+      exists w1, lg, w3. split; auto. split; auto. split; auto. split; auto.
+      intros x. rewrite S3, ref_atoms_In. tauto.
+    - destruct Hcase as [Hc|[Hsub Hmiss]]; [discriminate|].
+      unfold repair_heavy. cbn [negb].
+      destruct (add_h_spec ref hfeas hfeas_true ssb ref (mkW l0 [])) as [w3 [E3 [Nd3 S3]]]; auto.
+      exists (mkW l0 []), [], w3. split; auto. split; [exact E3|]. split; auto. split; auto.
+      intros x. rewrite S3, ref_atoms_In. cbn [w_names]. split.
+      + intros [Hx|[Hx [Hh Hs]]].
+        * split; auto. split; auto. intros [_ [_ Hc]]. auto.
+        * split; auto. split; [apply hyd_not_pseudo; auto|]. intros [Hs1 [Hs2 _]]. apply Hs. auto.
+      + intros [Hx [Hp Hs]]. destruct (in_dec string_dec x l0) as [Hi|Hi]; auto.
+        destruct (is_hyd x) eqn:Eh.
+        * right. split; auto. split; auto. intros [Hs1 Hs2]. apply Hs. auto.
+        * exfalso. assert (Hm : In x (missing_heavy ref l0)).
+          { unfold missing_heavy. apply filter_In. split; auto.
+            assert (Ha : phos_alias x l0 = false) by (unfold phos_alias; rewrite H1, H2; rewrite !andb_false_r; reflexivity).
+            rewrite Eh, Hp, Ha. cbn. apply negb_true_iff. apply mem_false_notin. auto. }
+          rewrite Hmiss in Hm. destruct Hm.
+  Qed.
+
+  (* what a finished pipeline run must look like *)
+  Definition pipeline_ok (l0 : nl) (am : bool) (Expected : nl) (r : pres) : Prop :=
+    match r with
+    | PRes final written un lg =>
+        NoDup final /\ (forall x, In x final <-> In x Expected) /\
+        written = final /\ un = [] /\ (forall x, In x final -> placeholder x = false) /\
+        lg = (if am then filter (fun a => negb (mem a ref)) l0 else []) /\
+        (forall x, In x l0 -> In x ref -> is_hyd x = false -> count_occ string_dec final x = 1)
+    | PFail why => why = "oracle stream does not fit the protocol"%string
+    end.
+
+  Lemma eff_kind_wf : forall opt k R, wf_kind k R = true -> wf_kind (eff_kind opt k) R = true.
+  Proof. intros opt k R H. unfold eff_kind. destruct opt; auto. destruct k; auto. Qed.
+
+  Theorem pipeline_written_set : forall ps1 ns w0 am ssb opt k ls cl his,
+    apply_patches ps1 (mkW ns []) = Some w0 ->
+    let l0 := w_names w0 in
+    let R := ref_atoms ref ssb l0 in
+    wf_input ref l0 am = true ->
+    wf_kind k R = true ->
+    (forall c, cl = Some c -> is_hyd (c_h1 c) = true) ->
+    (forall x, In x (expected_final opt k cl his R) -> entry x = true) ->
+    pipeline_ok l0 am (expected_final opt k cl his R)
+      (pipeline_names ref feas hfeas entry (MFull opt) ps1 [] am ssb k ls cl his ns).
+  Proof.
+    intros ps1 ns w0 am ssb opt k ls cl his Hp l0 R Hw Hk Hcl Hent.
+    destruct (wf_input_parts l0 am Hw) as [Hn [Hr [H1 [H2 [Hps [Hph Hcase]]]]]].
+    destruct (stage12 l0 am ssb Hw) as [w1 [lg [w3 [E1 [E3 [Nd3 [S3 Elg]]]]]]].
+    unfold pipeline_names. rewrite Hp. fold l0. rewrite E1. cbn [apply_patches fold_left]. rewrite E3.
+    fold (eff_kind opt k).
+    assert (HR : NoDup R) by (unfold R, ref_atoms; apply NoDup_filter; auto).
+    assert (Hph3 : forall x, In x (w_names w3) -> placeholder x = false).
+    { intros x Hx. apply S3 in Hx. apply ref_atoms_In in Hx. apply Hph. tauto. }
+    pose proof (proto_stage_good (eff_kind opt k) ls (w_names w3) R Nd3 S3 Hph3 (eff_kind_wf opt k R Hk)) as Hg.
+    assert (Hnc : match eff_kind opt k with PCarb _ _ _ => False | _ => True end).
+    { pose proof (eff_kind_wf opt k R Hk) as Hk'. destruct (eff_kind opt k); auto. discriminate. }
+    destruct (proto_stage (eff_kind opt k) ls (w_names w3)) as [l4| |]; [|reflexivity|contradiction].
+    destruct Hg as [Nd4 [S4 P4]].
+    (* l4 is set-equal to the expectation computed from R *)
+    assert (Hse : seteq l4 (expected_of (eff_kind opt k) R)).
+    { assert (H13 : seteq (w_names w3) R) by (split; auto).
+      pose proof (expected_of_seteq (eff_kind opt k) (w_names w3) R H13) as He.
+      destruct (eff_kind opt k) eqn:Ek; try contradiction;
+        destruct He as [Ha [Hb Hs]]; (split; [auto|]; split; [auto|]; intros x; rewrite S4; apply Hs). }
+    pose proof (seteq_his his _ _ (seteq_cleanup cl _ _ Hse)) as [Nf [Ne Sf]].
+    fold (expected_final opt k cl his R) in Ne, Sf.
+    unfold partition.
+    assert (Hall : forall x, In x (his_names his (cleanup_names cl l4)) -> entry x = true).
+    { intros x Hx. apply Hent. apply Sf. auto. }
+    destruct (filter_all entry _ Hall) as [F1 F2]. rewrite F1, F2. cbn [pipeline_ok].
+    split; auto. split; auto. split; auto. split; auto. split.
+    - intros x Hx. apply P4. eapply cleanup_sub; eauto. eapply his_sub; eauto.
+      destruct Hse as [Ha _]. clear -Ha. destruct cl as [c|]; cbn [cleanup_names]; auto.
+      destruct (mem (c_h1 c) l4 && mem (c_h2 c) l4); auto. apply NoDup_remove_first; auto.
+    - split; auto. intros x Hx0 Hxr Hh. apply NoDup_count_occ'; auto. apply Sf.
+      (* x is a reference atom, so it is in R and in the expectation; cleanup / set_state only drop hydrogens *)
+      assert (HxR : In x R).
+      { apply ref_atoms_In. split; auto. split; auto. intros [_ [_ Hc]]. auto. }
+      assert (HxE : In x (expected_of (eff_kind opt k) R)).
+      { destruct (eff_kind opt k); cbn [expected_of]; auto.
+        - apply alc_expected_set; auto. destruct (string_dec x h); auto.
+        - apply wat_expected_set. auto.
+        - contradiction. }
+      assert (HE : NoDup (expected_of (eff_kind opt k) R)) by (destruct Hse as [_ [Hb _]]; auto).
+      unfold expected_final.
+      assert (HxC : In x (cleanup_names cl (expected_of (eff_kind opt k) R))).
+      { destruct cl as [c|]; cbn [cleanup_names]; auto.
+        destruct (mem (c_h1 c) _ && mem (c_h2 c) _); auto. apply In_remove_first; auto. split; auto.
+        intros ->. rewrite (Hcl c eq_refl) in Hh. discriminate. }
+      assert (HC : NoDup (cleanup_names cl (expected_of (eff_kind opt k) R))).
+      { destruct cl as [c|]; cbn [cleanup_names]; auto.
+        destruct (mem (c_h1 c) _ && mem (c_h2 c) _); auto. apply NoDup_remove_first; auto. }
+      destruct his as [[|]|]; cbn [his_names]; auto.
+      + destruct (mem "HE2" _); auto. apply In_remove_first; auto. split; auto. intros ->. cbn in Hh. discriminate.
+      + destruct (mem "HD1" _); auto. apply In_remove_first; auto. split; auto. intros ->. cbn in Hh. discriminate.
+  Qed.
+
+  (* --clean: every atom left after the terminus patches is printed, nothing is added *)
+  Theorem pipeline_clean : forall ps1 ps2 ns w0 am ssb k ls cl his,
+    apply_patches ps1 (mkW ns []) = Some w0 ->
+    pipeline_names ref feas hfeas entry MClean ps1 ps2 am ssb k ls cl his ns = PRes (w_names w0) (w_names w0) [] [].
+  Proof. intros. unfold pipeline_names. rewrite H. reflexivity. Qed.
+
+  (* --assign-only: no repair, no hydrogens, no optimisation: the written names are the
+     current names that have an entry; every other one is reported unassigned *)
+  Theorem pipeline_assign_only : forall ps1 ps2 ns w0 w1 am ssb k ls cl his,
+    apply_patches ps1 (mkW ns []) = Some w0 -> apply_patches ps2 w0 = Some w1 -> NoDup (w_names w1) ->
+    exists final written un,
+      pipeline_names ref feas hfeas entry MAssignOnly ps1 ps2 am ssb k ls cl his ns = PRes final written un [] /\
+      final = his_names his (w_names w1) /\ written = filter entry final /\
+      un = filter (fun x => negb (entry x)) final /\
+      (forall x, In x written -> In x (w_names w1) /\ entry x = true).
+  Proof.
+    intros ps1 ps2 ns w0 w1 am ssb k ls cl his H0 H1 Hn. unfold pipeline_names. rewrite H0, H1. unfold partition.
+    eexists. eexists. eexists. split; [reflexivity|]. split; auto. split; auto. split; auto.
+    intros x Hx. apply filter_In in Hx. destruct Hx as [Hx He]. split; auto. eapply his_sub; eauto.
+  Qed.
+End PipelineProofs.
+
+(* carboxylic residues: the protocol stage is certified per table instance (atom list as the
+   pipeline presents it when the Carboxylic object is constructed) *)
+Theorem pipeline_carb_stage : forall l i c ord lf ls best, all_instances_ok l = true -> In i l -> i_kind i = KCarb c ->
+  match proto_stage (PCarb c ord lf) (LCarb ls best) (i_base i) with
+  | POk l' => final_ok (i_expected i) l'
+  | PDisabled => True
+  | PErr => False
+  end.
+Proof.
+  intros l i c ord lf ls best H Hi Hk. cbn [proto_stage].
+  pose proof (proto_ok_stage _ _ _ _ _ _ ls best (carb_table_sound l i c ord lf H Hi Hk)) as Hp.
+  destruct (carb_start c ord lf (i_base i)); auto.
+Qed.
+
+(* a concrete case that passes the boolean guard and whose expected names all have an entry *)
+Theorem pcase_sound : forall (entry : string -> bool) c feas hfeas ls,
+  (forall a l, feas a l = true) -> (forall a l, hfeas a l = true) ->
+  pcase_guard c = true -> pcase_entries entry c = true ->
+  exists w0 e, apply_patches (pc_ps1 c) (mkW (pc_ns c) []) = Some w0 /\ pcase_expected c = Some e /\
+    pipeline_ok (pc_ref c) (w_names w0) false e
+      (pipeline_names (pc_ref c) feas hfeas entry (MFull true) (pc_ps1 c) [] false (pc_ssb c)
+                      (pc_kind c) ls (pc_cl c) (pc_his c) (pc_ns c)).
+Proof.
+  intros entry c feas hfeas ls Hf Hh Hg He. unfold pcase_guard in Hg. unfold pcase_entries, pcase_expected in *.
+  destruct (apply_patches (pc_ps1 c) (mkW (pc_ns c) [])) as [w0|] eqn:E; [|discriminate].
+  apply andb_true_iff in Hg. destruct Hg as [Hg H3]. apply andb_true_iff in Hg. destruct Hg as [H1 H2].
+  exists w0. eexists. split; auto. split; [reflexivity|].
+  apply (pipeline_written_set (pc_ref c) feas hfeas entry Hf Hh (pc_ps1 c) (pc_ns c) w0 false (pc_ssb c) true
+           (pc_kind c) ls (pc_cl c) (pc_his c) E H1 H2).
+  - intros x Hx. rewrite Hx in H3. exact H3.
+  - intros x Hx. rewrite forallb_forall in He. apply He. exact Hx.
+Qed.
+
+Theorem pcases_ff_sound : forall (l : list pcase) (ent : pcase -> string -> bool),
+  forallb pcase_guard l = true ->
+  forall c, In c (filter (fun c => pcase_entries (ent c) c) l) ->
+  forall feas hfeas ls, (forall a x, feas a x = true) -> (forall a x, hfeas a x = true) ->
+  exists w0 e, apply_patches (pc_ps1 c) (mkW (pc_ns c) []) = Some w0 /\ pcase_expected c = Some e /\
+    pipeline_ok (pc_ref c) (w_names w0) false e
+      (pipeline_names (pc_ref c) feas hfeas (ent c) (MFull true) (pc_ps1 c) [] false (pc_ssb c)
+                      (pc_kind c) ls (pc_cl c) (pc_his c) (pc_ns c)).
+Proof.
+  intros l ent Hg c Hc feas hfeas ls Hf Hh. apply filter_In in Hc. destruct Hc as [Hc He].
+  rewrite forallb_forall in Hg. apply pcase_sound; auto.
 Qed.
